@@ -159,10 +159,7 @@ def assignment_of(a, n):
 
 # ------------------------------------------------------------------ graphs
 def mkgraph(n, edges):
-    G = Graph(n)
-    for u, v in edges:
-        G.add_edge(u, v)
-    return G
+    return common.graph_by_some_history(n, edges)
 
 
 def adjacency(n, edges):
